@@ -1,10 +1,10 @@
 --------------------------- MODULE TraceMetrics ---------------------------
 (* Trace validation of executions recorded from the real metrics.Collector / PerformanceMonitor *)
 EXTENDS Metrics, Json, IOUtils
-VARIABLE l
+VARIABLES l, mon        \* mon: the performance monitor's switch (nothing is recorded while it is off)
 Trace == ndJsonDeserialize(IOEnv.TRACEFILE)
 Ev == Trace[l]
-tvars == <<mvars, l>>
+tvars == <<mvars, l, mon>>
 TagSet(s) == {<<s[i][1], s[i][2]>> : i \in 1..Len(s)}
 TagSeq(s) == [i \in 1..Len(s) |-> <<s[i][1], s[i][2]>>]
 RO == UNCHANGED mvars
@@ -21,8 +21,10 @@ THRead == Ev.op = "hread" /\ Ev.sid \in DOMAIN hist
              /\ hist[Ev.sid].count = Ev.count /\ hist[Ev.sid].sum = Ev.sum
              /\ (\A i \in 1..(Len(Ev.pcts) - 1) : Ev.pcts[i][2] <= Ev.pcts[i + 1][2])    \* monotone in p
              /\ RO
-TRecS  == Ev.op = "recsearch" /\ RecordSearch(Ev.hit)
-TRecD  == Ev.op = "recdb" /\ RecordDb(Ev.name, Ev.hit)
+TRecS  == Ev.op = "recsearch" /\ (IF mon THEN RecordSearch(Ev.hit) ELSE RO)
+TRecD  == Ev.op = "recdb" /\ (IF mon THEN RecordDb(Ev.name, Ev.hit) ELSE RO)
+\* switching the monitor off or on (again) changes no total
+TMEnable == Ev.op = "menable" /\ mon' = Ev.hit /\ RO
 \* a search through the real monitored database: recorded exactly once, as a hit or as a miss (the report that follows says which)
 TMSearch == Ev.op = "msearch" /\ \E h \in BOOLEAN : RecordSearch(h)
 \* totals read back from the monitor's report
@@ -37,9 +39,9 @@ TReport == Ev.op = "report" /\ ReportOK /\ RO
 \* concurrent burst: g goroutines x k increments on one identity
 TConc  == Ev.op = "conc" /\ Ev.total = Ev.g * Ev.k /\ Ev.series = 1 /\ Ev.hcount = Ev.g * Ev.k /\ RO
 
-TraceInit == l = 1 /\ reg = {} /\ cval = <<>> /\ hist = <<>> /\ nSearch = <<0, 0>> /\ nDb = <<>> /\ mlast = [op |-> "init", sid |-> 0]
-TraceNext == l <= Len(Trace) /\ l' = l + 1
-             /\ (TReset \/ TGet \/ TAdd \/ TCReset \/ TCVal \/ TObs \/ THRead \/ TRecS \/ TRecD \/ TMSearch \/ TReport \/ TConc)
+TraceInit == l = 1 /\ mon = TRUE /\ reg = {} /\ cval = <<>> /\ hist = <<>> /\ nSearch = <<0, 0>> /\ nDb = <<>> /\ mlast = [op |-> "init", sid |-> 0]
+TraceNext == l <= Len(Trace) /\ l' = l + 1 /\ (IF Ev.op = "menable" THEN TRUE ELSE IF Ev.op = "reset" THEN mon' = TRUE ELSE UNCHANGED mon)
+             /\ (TMEnable \/ TReset \/ TGet \/ TAdd \/ TCReset \/ TCVal \/ TObs \/ THRead \/ TRecS \/ TRecD \/ TMSearch \/ TReport \/ TConc)
 TraceSpec == TraceInit /\ [][TraceNext]_tvars
 TraceAccepted ==
     LET d == TLCGet("stats").diameter IN
